@@ -342,6 +342,22 @@ func (c *Cluster) LeaderHost(shardID uint64, replicas map[uint64]int) int {
 	return -1
 }
 
+// SelfLeader returns the host index of a running replica that reports itself
+// as the leader of the shard (-1 if none does). Unlike LeaderHost it does not
+// trust what other hosts remember about a leader.
+func (c *Cluster) SelfLeader(shardID uint64, replicas map[uint64]int) int {
+	for rep, hi := range replicas {
+		nh := c.Hosts[hi].nodeHost()
+		if nh == nil {
+			continue
+		}
+		if lid, _, ok, err := nh.GetLeaderID(shardID); err == nil && ok && lid == rep {
+			return hi
+		}
+	}
+	return -1
+}
+
 // RunScript executes the fault script; crash/restart steps go through the
 // given callbacks so that the caller can attach its checks.
 func (c *Cluster) RunScript(script []Fault, shardID uint64, replicas map[uint64]int,
